@@ -1728,7 +1728,7 @@ fn main() {
     }
     if let Some(i) = cli.rest.iter().position(|a| a == "--one") {
         // debugging aid: c17 --one '<case json>'
-        vh::install_quiet_panic_hook();
+        if std::env::var("C17_LOUD").is_err() { vh::install_quiet_panic_hook(); }
         let v: Value = serde_json::from_str(cli.rest.get(i + 1).map(|s| s.as_str()).unwrap_or("{}")).unwrap_or(json!({}));
         let Some(case) = Case::from_json(&v) else { vh::machinery_failure("bad --one case") };
         let out = run_case(&case);
